@@ -113,6 +113,9 @@ func checkC16(a *checkArgs, r *Result) error {
 	if err := c16Streams(a, r, d); err != nil {
 		return err
 	}
+	if err := c16Writer(a, r, d); err != nil {
+		return err
+	}
 	r.Extra["driver_requests"] = d.N
 	return nil
 }
